@@ -119,28 +119,53 @@ func main() {
 	total, files := 0, 0
 	for _, pkg := range os.Args[2:] {
 		matches, _ := filepath.Glob(filepath.Join(root, pkg, "*.go"))
-		// A package that uses real synchronisation is left uninstrumented: the
-		// cooperative scheduler must never switch tasks while the code under
+		// A package that uses BLOCKING synchronisation is left uninstrumented:
+		// the cooperative scheduler must never switch tasks while the code under
 		// test holds a lock (the other task would block for real and the
 		// simulation would deadlock — a false alarm). Such a package is still
 		// covered by the -race flavour, where tasks switch only between calls.
-		usesSync := false
+		// Non-blocking primitives (sync/atomic, sync.Pool, sync.Map) are fine: no
+		// yield point lies inside the standard library.
+		blocking := ""
 		for _, m := range matches {
 			if strings.HasSuffix(m, "_test.go") {
 				continue
 			}
 			src, _ := os.ReadFile(m)
 			fset := token.NewFileSet()
-			if f, err := parser.ParseFile(fset, m, src, parser.ImportsOnly); err == nil {
-				for _, im := range f.Imports {
-					if im.Path.Value == `"sync"` || im.Path.Value == `"sync/atomic"` {
-						usesSync = true
+			f, err := parser.ParseFile(fset, m, src, 0)
+			if err != nil {
+				continue
+			}
+			syncName := ""
+			for _, im := range f.Imports {
+				if im.Path.Value == `"sync"` {
+					syncName = "sync"
+					if im.Name != nil {
+						syncName = im.Name.Name
 					}
 				}
 			}
+			if syncName == "" {
+				continue
+			}
+			ast.Inspect(f, func(n ast.Node) bool {
+				if se, ok := n.(*ast.SelectorExpr); ok {
+					if id, ok := se.X.(*ast.Ident); ok && id.Name == syncName {
+						switch se.Sel.Name {
+						case "Mutex", "RWMutex", "Once", "Cond", "NewCond", "WaitGroup", "Locker", "OnceFunc", "OnceValue", "OnceValues":
+							blocking = "sync." + se.Sel.Name
+						}
+					}
+				}
+				return true
+			})
+			if syncName == "." || syncName == "_" {
+				blocking = "sync (dot/blank import)"
+			}
 		}
-		if usesSync {
-			fmt.Printf("yieldinject: package %s imports sync: NOT instrumented\n", pkg)
+		if blocking != "" {
+			fmt.Printf("yieldinject: package %s uses %s: NOT instrumented\n", pkg, blocking)
 			continue
 		}
 		for _, m := range matches {
